@@ -21,8 +21,8 @@
     * ChiSquared `mode()` is `None` for k < 2 (textbook `max(k − 2, 0) = 0`).
 -/
 import Statrs.Real.Simp
-import Statrs.Draft.Spec.Location
-import Statrs.Draft.Lemmas.LocationPins
+import Statrs.Spec.Location
+import Statrs.Lemmas.LocationPins
 import Statrs.Gen.D_bernoulli
 import Statrs.Gen.D_beta
 import Statrs.Gen.D_binomial
